@@ -1189,6 +1189,64 @@ def task_site_builder_build(scratch, tier, seed, logdir):
     return [ob.done()]
 
 
+def task_project_wiring(scratch, tier, seed, logdir):
+    """C03: Spectrum::project validates first (Projection::from_shapes(source shape, target)?), then
+    accumulates project_unchecked(index).into_weighted(x[index]) over iter_indices in step with the
+    data into a zero spectrum of the target shape, and returns that."""
+    fns = fns_for(scratch, "sfs-core")
+    ob = Ob("project_wiring", ["spectrum::Spectrum::project"], "every path of one loop iteration; calls uninterpreted")
+    try:
+        f = mir.find_fn(fns, r"^spectrum::<impl [^>]*spectrum\.rs>::project$")
+        paths = mir.Exec(f, [], max_paths=5000).run({"_1": ("ref", "$self"), "$self": V("spectrum", "U"), "_2": V("project_to", "U")})
+        seen = set()
+        for p in paths:
+            names = [e[0] for e in p.state.events]
+            if p.end == "return" and "from_residual" in show(p.ret):
+                seen.add("err")
+                if any(re.search(r"from_zeros|add_unchecked|project_unchecked", n) for n in names):
+                    ob.fail("violation", "a rejected target is not rejected before anything else happens")
+                fs = [e for e in p.state.events if re.search(r"Projection::from_shapes", e[0])]
+                if not fs or "Spectrum::<S>::shape(spectrum)" not in show(fs[0][1][0]) or "project_to" not in show(fs[0][1][1]):
+                    ob.fail("violation", "validation is not Projection::from_shapes(self.shape(), target)")
+            elif p.end == "return":
+                seen.add("done")
+                r = show(p.ret)
+                if not re.fullmatch(r"ctor:Ok\(spectrum::Spectrum::<Counts>::into_state_unchecked::<S>\(.*\)\)", r):
+                    ob.fail("violation", "the result is not Ok(the accumulated spectrum): " + r[:160])
+            elif p.end == "loopback":
+                seen.add("step")
+                cells = [show(v) for v in p.state.env.values() if "add_unchecked!mut1" in show(v)]
+                if not cells:
+                    ob.fail("violation", "a loop iteration does not add a projected contribution")
+                    continue
+                t = cells[0]
+                m = re.fullmatch(r"Projected::<'_>::add_unchecked!mut1\(Projected::<'_>::into_weighted\(Projection::project_unchecked\((.*)\), spectrum::Spectrum::<Counts>::from_zeros::<Shape>\(<T as std::convert::Into<Shape>>::into\(project_to\)\)\)", t)
+                if not m:
+                    ob.fail("violation", "the loop body is not new += project_unchecked(from).into_weighted(weight): " + t[:200])
+                    continue
+                ew = [e for e in p.state.events if re.search(r"Projected::<'_>::into_weighted$", e[0])]
+                ef = [e for e in p.state.events if re.search(r"Projection::project_unchecked$", e[0])]
+                if not ew or not ef:
+                    ob.fail("violation", "loop body without project_unchecked / into_weighted")
+                    continue
+                W, F = show(ew[0][1][1]), show(ef[0][1][1])
+                item = re.fullmatch(r"deref\(field\((field\(as_Some\(.*\), 0\)), 0\)\)", W)
+                if not item or F != f"field({item.group(1)}, 1)":
+                    ob.fail("violation", "weight and source index are not the two halves of the same zipped item")
+                    continue
+                it = item.group(1)
+                zipped = "Iterator>::zip::<" in it and "array::Array::<f64>::iter(refto(field(spectrum, 0)))" in it and "array::Array::<f64>::iter_indices(refto(field(spectrum, 0)))" in it and "{count::Count}" in it
+                if not zipped:
+                    ob.fail("violation", "weights and source indices are not taken in step from the same array (zip(iter, iter_indices.map(Count)))")
+        if seen != {"err", "done", "step"}:
+            ob.fail("inconclusive", f"paths found: {sorted(seen)}")
+        ob.d["nonvacuous"] = seen == {"err", "done", "step"}
+        ob.d["queries"] += len(paths)
+    except (LookupError, ValueError, RuntimeError, KeyError, IndexError) as e:
+        ob.fail("inconclusive", f"translator: {type(e).__name__}: {e}")
+    return [ob.done()]
+
+
 def task_main_exit(scratch, tier, seed, logdir):
     """C10 / C16 / C17: main maps every Err of run() to a message on stderr and exit status 1."""
     fns = fns_for(scratch, "sfs-cli")
@@ -1268,6 +1326,7 @@ TASKS = {
     "spectrum_read_wiring": task_spectrum_read_wiring,
     "text_write_wiring": task_text_write_wiring,
     "site_builder_build": task_site_builder_build,
+    "project_wiring": task_project_wiring,
     "shape_closures": task_shape_closures,
 }
 
